@@ -190,6 +190,19 @@ def run_bulk(case):
                     add(f"C11:keys:settings:{fam}", f"{what}: settings keys differ from settings() as listed before the "
                         f"call: {sorted(set(sdata) ^ ids0)[:6]}")
                 stats["none_values"] += sum(1 for v in sdata.values() if v is None)
+                if fam == "ET":
+                    # 'never prevents the other values from being decoded': every content of a plain numeric
+                    # setting is a value, so None there (for a register the inverter has) came from somewhere else
+                    refused = {lo for (lo, hi, code) in dev.exc_map}
+                    for st in inv.settings():
+                        if type(st).__name__ in ("Byte", "ByteH", "ByteL", "Integer", "IntegerS", "Long", "LongS", "Decimal",
+                                                 "Voltage", "Current", "CurrentS") and st.id_ in sdata2 \
+                                and sdata2[st.id_] is None and st.offset not in refused \
+                                and dev.is_valid(st.offset, max(1, (st.size_ + 1) // 2)):
+                            add(f"C11:none-for-decodable:{type(st).__name__}",
+                                f"{what}: read_settings_data()['{st.id_}'] is None although every content of a "
+                                f"{type(st).__name__} register is a value")
+                            break
             except ge.InverterError as e:
                 add(f"C11:inverter-error:settings:{fam}", f"{what}: read_settings_data raised {e!r}")
             except Exception as e:  # noqa
